@@ -28,6 +28,14 @@
 #include <type_traits>
 #include <utility>
 
+#if defined(PIKA_DETAIL_ENABLE_ANY_SENDER_SBO)
+// Opt-in embedded-storage configuration (reported separately, not claimed): the define changes the
+// layout of movable_sbo_storage, libpika.so was built without it, so the out-of-line members of
+// any_sender.hpp's classes are compiled into the harness with the matching layout (the
+// executable's definitions take precedence for the harness' calls).
+# include ERASE_ANY_SENDER_CPP
+#endif
+
 namespace ex = pika::execution::experimental;
 using namespace verif;
 
